@@ -13,4 +13,5 @@ for f in $(grep '^+++ b/' "$patch_file" | sed 's|^+++ b/||'); do
   repl="$repl REPL=$f=$tmp/$f"
 done
 patch -s -p1 -d "$tmp" < "$patch_file"
-VERIF_REPL="$repl" /verif/check "$prop" "$@"
+mkdir -p /verif/.work/seed-evidence
+VERIF_EVIDENCE_DIR=/verif/.work/seed-evidence VERIF_REPL="$repl" /verif/check "$prop" "$@"
